@@ -1,9 +1,10 @@
 (* Props/C16.v — EliasFanoBuilder accepts exactly the valid pushes and builds what it accepted.
    Pinned statements only; proofs are in Proofs/EFRep.v, Proofs/EFBuilder.v (and Proofs/EFQueries.v
-   for the read-back through select).  The DArray layer (Model/DArray.v) enters through two explicit
-   premises, stated here in full and discharged by its own proofs. *)
+   for the read-back through select).  The DArray layer (Model/DArray.v) entered those proofs through
+   two premises, discharged in Proofs/Integration.v from Proofs/DAMain.v; the statements below are
+   closed. *)
 From Sucds Require Import Base.Res Spec.BitSpec Spec.SeqSpec Model.BitVector Model.DArray Model.EliasFano
-  Proofs.BVAbs Proofs.IndexSpecs Proofs.EFRep Proofs.EFQueries Proofs.EFBuilder.
+  Proofs.BVAbs Proofs.IndexSpecs Proofs.EFRep Proofs.EFQueries Proofs.EFBuilder Proofs.Integration.
 Open Scope N_scope.
 
 (* new(u, 0) is rejected, in every configuration and for every u *)
@@ -62,11 +63,7 @@ Print Assumptions C16_low_len.
 
 (* (ii) build: the same Elias-Fano value in every configuration; it represents exactly the
    accepted values with universe u: len, universe and full read-back through select *)
-Theorem C16_build :
-  (forall bits, lenN bits < 2 ^ 56 ->
-     exists d, (forall c, da_from_bits c bits = Ok d) /\ bits_of (da_bv d) = bits /\
-               da_s0 d = None /\ da_r9 d = None /\ (forall c, da_correct c d)) ->
-  forall u m ops, u < W -> 1 <= m ->
+Theorem C16_build : forall u m ops, u < W -> 1 <= m ->
   m + 2 + u / 2 ^ low_len_of u m < 2 ^ 56 -> m * low_len_of u m < 2 ^ 56 ->
   let acc := fst (spec_run u m [] ops) in
   exists e, ef_rep e acc u /\
@@ -75,30 +72,22 @@ Theorem C16_build :
        efb_inv b acc u m /\ efb_build c b = Ok e) /\
     ef_len e = lenN acc /\ ef_universe e = u /\
     (forall c k, ef_select c e k = Ok (SeqSpec.ef_select acc k)).
-Proof. exact efb_build_history. Qed.
+Proof. exact efb_build_history_closed. Qed.
 Print Assumptions C16_build.
 
 (* build from any builder state satisfying the invariant *)
-Theorem C16_build_state :
-  (forall bits, lenN bits < 2 ^ 56 ->
-     exists d, (forall c, da_from_bits c bits = Ok d) /\ bits_of (da_bv d) = bits /\
-               da_s0 d = None /\ da_r9 d = None /\ (forall c, da_correct c d)) ->
-  forall u m b acc, u < W -> 1 <= m ->
+Theorem C16_build_state : forall u m b acc, u < W -> 1 <= m ->
   m + 2 + u / 2 ^ low_len_of u m < 2 ^ 56 -> m * low_len_of u m < 2 ^ 56 ->
   efb_inv b acc u m ->
   exists e, (forall c, efb_build c b = Ok e) /\ ef_rep e acc u /\
             da_bv (ef_high e) = b_high b /\ ef_low e = b_low b.
-Proof. exact efb_build_ok. Qed.
+Proof. exact efb_build_ok_closed. Qed.
 Print Assumptions C16_build_state.
 
 (* enable_rank keeps the represented sequence and adds the select0 index *)
-Theorem C16_enable_rank :
-  (forall d, (forall c, da_correct c d) -> cap_ok (da_bv d) ->
-     exists d', (forall c, da_enable_select0 c d = Ok d') /\ da_bv d' = da_bv d /\
-                da_s0 d' <> None /\ da_r9 d' = da_r9 d /\ (forall c, da_correct c d')) ->
-  forall e xs u, ef_rep e xs u ->
+Theorem C16_enable_rank : forall e xs u, ef_rep e xs u ->
   exists e', (forall c, ef_enable_rank c e = Ok e') /\ ef_rep e' xs u /\ da_s0 (ef_high e') <> None.
-Proof. exact ef_enable_rank_ok. Qed.
+Proof. exact ef_enable_rank_ok_closed. Qed.
 Print Assumptions C16_enable_rank.
 
 (* ---- a concrete history: valid pushes, a decreasing value, a value >= u, an extend that stops
